@@ -26,6 +26,9 @@ type IdxRef struct {
 	Bins      []IdxBin
 	Stats     *IdxStats // nil: no pseudo bin
 	Intervals []uint64  // BAI / tabix
+	// StatsAt is the position of the pseudo bin among the bins (other
+	// writers emit bins in hash order); beyond the last bin = last.
+	StatsAt int
 }
 
 type IdxFile struct {
@@ -49,7 +52,20 @@ func (f *IdxFile) refsBAI(b *bytes.Buffer, pseudo uint32) {
 			n++
 		}
 		w32(b, uint32(n))
-		for _, bn := range r.Bins {
+		stats := func() {
+			w32(b, pseudo)
+			w32(b, 2)
+			w64(b, r.Stats.Beg)
+			w64(b, r.Stats.End)
+			w64(b, r.Stats.Mapped)
+			w64(b, r.Stats.Unmapped)
+		}
+		done := r.Stats == nil
+		for i, bn := range r.Bins {
+			if !done && i == r.StatsAt {
+				stats()
+				done = true
+			}
 			w32(b, bn.Bin)
 			w32(b, uint32(len(bn.Chunks)))
 			for _, c := range bn.Chunks {
@@ -57,13 +73,8 @@ func (f *IdxFile) refsBAI(b *bytes.Buffer, pseudo uint32) {
 				w64(b, c.End)
 			}
 		}
-		if r.Stats != nil {
-			w32(b, pseudo)
-			w32(b, 2)
-			w64(b, r.Stats.Beg)
-			w64(b, r.Stats.End)
-			w64(b, r.Stats.Mapped)
-			w64(b, r.Stats.Unmapped)
+		if !done {
+			stats()
 		}
 		w32(b, uint32(len(r.Intervals)))
 		for _, o := range r.Intervals {
@@ -123,7 +134,21 @@ func (f *IdxFile) EncodeCSI() []byte {
 			n++
 		}
 		w32(&b, uint32(n))
-		for _, bn := range r.Bins {
+		stats := func() {
+			w32(&b, pseudo)
+			w64(&b, 0)
+			w32(&b, 2)
+			w64(&b, r.Stats.Beg)
+			w64(&b, r.Stats.End)
+			w64(&b, r.Stats.Mapped)
+			w64(&b, r.Stats.Unmapped)
+		}
+		done := r.Stats == nil
+		for i, bn := range r.Bins {
+			if !done && i == r.StatsAt {
+				stats()
+				done = true
+			}
 			w32(&b, bn.Bin)
 			w64(&b, bn.LOffset)
 			w32(&b, uint32(len(bn.Chunks)))
@@ -132,14 +157,8 @@ func (f *IdxFile) EncodeCSI() []byte {
 				w64(&b, c.End)
 			}
 		}
-		if r.Stats != nil {
-			w32(&b, pseudo)
-			w64(&b, 0)
-			w32(&b, 2)
-			w64(&b, r.Stats.Beg)
-			w64(&b, r.Stats.End)
-			w64(&b, r.Stats.Mapped)
-			w64(&b, r.Stats.Unmapped)
+		if !done {
+			stats()
 		}
 	}
 	if f.NoCoor != nil {
